@@ -73,14 +73,29 @@ theorem scpl_drop (hx : GoodCtx x) (h : SCpl x s m) {f : Nat} {s1 : SState} (hd 
         if m.lastPending && !m.streamDropped then
           [.prop "C05" ((Ev.drop f w).text ++ " wake-after-drop")
             ((m.wokenSincePoll || w) || allBlockedB x.c m.yielded (m.droppedRefs ++ [f]))]
+          ++ (if m.yieldedAtIntr.isSome then [] else
+                [.prop "C03" ((Ev.drop f w).text ++ " clean stream parked for good")
+                  ((m.wokenSincePoll || w) || allBlockedB x.c m.yielded (m.droppedRefs ++ [f]))])
+          ++ (if x.interruptible then [] else
+                [.prop "C06" ((Ev.drop f w).text ++ " idle with a released function unstarted")
+                  ((m.wokenSincePoll || w) || allBlockedB x.c m.yielded (m.droppedRefs ++ [f]))])
         else [] := rfl
     rw [hnotes] at hn
     split at hn
     · rename_i hcond
       simp only [Bool.and_eq_true, Bool.not_eq_true'] at hcond
-      simp only [List.mem_singleton] at hn
-      subst hn
-      show ((m.wokenSincePoll || w) || allBlockedB x.c m.yielded (m.droppedRefs ++ [f])) = true
+      have hok : ((m.wokenSincePoll || w) || allBlockedB x.c m.yielded (m.droppedRefs ++ [f])) = true → n.ok = true := by
+        intro hv
+        simp only [List.mem_append, List.mem_singleton] at hn
+        rcases hn with (hn | hn) | hn
+        · subst hn; exact hv
+        · split at hn
+          · cases hn
+          · simp only [List.mem_singleton] at hn; subst hn; exact hv
+        · split at hn
+          · cases hn
+          · simp only [List.mem_singleton] at hn; subst hn; exact hv
+      apply hok
       rw [hwake hcond.1, h.yielded, h.dropped, ← e1, ← e3]
       cases hw : s1.wake with
       | true => rfl
